@@ -25,7 +25,7 @@ class C11(Prop):
     reach = ["steer_fold_10000", "steer_final_ffff", "steer_raw_multiple", "udp_csum_ffff", "ipv6_tcp", "ipv6_udp",
              "ipv4_udp", "odd_length", "one_byte_payload", "padded_frame", "bad_field", "bad_bitflip", "subset_ge_2",
              "empty_B", "retransmitted_segment", "tcp_and_udp_between_same_hosts",
-             "server_port_other_than_443"]
+             "server_port_other_than_443", "udp_without_checksum"]
 
     def plan(self, tier):
         p = super().plan(tier)
@@ -58,6 +58,10 @@ class C11(Prop):
                     spec["same_host_pair"] = True
                 except (ValueError, RuntimeError):
                     pass
+        for c in spec["conns"]:
+            if c["proto"] in ("quic", "udp") and not c["v6"] and R.fork("nocsum", c["id"]).chance(30):
+                # this sender (or both) generates no UDP checksum: field zero, nothing to verify, never a bad packet
+                c["udp_nocsum"] = R.fork("nocsum-dir", c["id"]).choice(["c", "s", "cs"])
         # connections to other server ports (TLS selected with -p; QUIC is recognised on any port)
         PP = R.fork("ports")
         extra_ports = []
@@ -104,7 +108,8 @@ class C11(Prop):
     def subsets(self, spec, ex, tier):
         R = Rng(spec["bseed"], "B")
         tl = ex["taplog"]
-        idx = [e["i"] for e in tl if "ctl" not in e]
+        # datagrams sent without a checksum cannot be damaged detectably: they are never part of B
+        idx = [e["i"] for e in tl if "ctl" not in e and not e.get("udp_nocsum")]
         out = [[]]
         steered = [s[0] for s in spec.get("steer", [])]
         # first copies of segments that are retransmitted later (the copy must take over when the first is bad)
@@ -125,6 +130,8 @@ class C11(Prop):
                 opening.append(e["i"])
         singles = idx if tier != "quick" else sorted(set(R.sample(idx, min(len(idx), 4)) + steered[:2] + firstcopies[:2] +
                                                          opening[:3]))
+        allowed = set(idx)
+        singles = [i for i in singles if i in allowed]
         for i in singles:
             out.append([[i, R.choice(["field", "flip"]), R.bits(16) or 1, R.below(4000), R.below(8)]])
         for _ in range(3 if tier == "quick" else 10):
@@ -227,6 +234,8 @@ class C11(Prop):
                         "reach:steer_raw_multiple" if k[0] == "raw_multiple" else "reach:steer_other")))
             if e.get("udp_ffff"):
                 out.count("reach:udp_csum_ffff")
+            if e.get("udp_nocsum"):
+                out.count("reach:udp_without_checksum")
             if e.get("dup"):
                 out.count("reach:retransmitted_segment")
         if spec.get("same_host_pair"):
